@@ -240,6 +240,8 @@ func checkC13(c *Ctx, r *Report) {
 
 	// C13.cas
 	c.checkCAS(r, ro, rt)
+	// C13.boundary
+	c.checkBoundary(r, ro)
 
 	// C13.atomic — unexported state fields of the rolling type are sync/atomic types
 	st := rt.Underlying().(*types.Struct)
@@ -551,6 +553,90 @@ func (c *Ctx) checkCAS(r *Report, ro *Roles, rt *types.Named) {
 		r.OK(key, "%d file-field writes all on the true edge of %s; created file published under err == nil", len(writes), cas.Common().StaticCallee().Name())
 	}
 	r.Count("file_field_writes", len(writes))
+}
+
+// checkBoundary: the rotation step creates a new file iff the current interval is strictly later than the stored
+// one (all three orderings of now's interval vs the stored interval), and the compare-and-swap moves the marker
+// from the value that was read to the current interval.
+func (c *Ctx) checkBoundary(r *Report, ro *Roles) {
+	fn := ro.Rotation
+	key := "C13.boundary:" + fname(fn)
+	var nowV, oldV ssa.Value
+	var cas *ssa.Call
+	eachInstr(fn, func(in ssa.Instruction) {
+		call, ok := in.(*ssa.Call)
+		if !ok {
+			return
+		}
+		s := call.Common().StaticCallee()
+		if s == nil {
+			return
+		}
+		if c.inModule(s) {
+			p := c.prov(call, &Frame{Fn: fn})
+			if p.Inl != nil && p.Inl.find(func(n *PNode) bool { return n.isCall("(time.Time).Truncate") }) != nil {
+				nowV = call
+			}
+		}
+		if s.Object() != nil && s.Object().Pkg() != nil && s.Object().Pkg().Path() == "sync/atomic" {
+			if s.Name() == "Load" && oldV == nil && !isFileHolder(fieldTypeOfArg0(call)) {
+				oldV = call
+			}
+			if strings.HasPrefix(s.Name(), "CompareAndSwap") {
+				cas = call
+			}
+		}
+	})
+	if nowV == nil || oldV == nil {
+		r.Undecided(key, c.pos(fn.Pos()), "cannot identify the current-interval value and the stored-interval load in the rotation step")
+		return
+	}
+	var bad []string
+	for _, pr := range [][2]int64{{0, 1}, {1, 1}, {2, 1}} {
+		ts := &TS{C: c, Ev: &Evaluator{Assume: func(v ssa.Value, fr *Frame) (constant.Value, bool) {
+			if v == nowV {
+				return constant.MakeInt64(pr[0]), true
+			}
+			if v == oldV {
+				return constant.MakeInt64(pr[1]), true
+			}
+			return nil, false
+		}}}
+		creates := false
+		ts.OnInstr = func(s *TSCtx, in ssa.Instruction) []string {
+			if ci, ok := in.(ssa.CallInstruction); ok && c.callOpensFile(ci) {
+				creates = true
+			}
+			return nil
+		}
+		ts.Run(fn, "", nil)
+		r.Count("typestate_states", ts.States)
+		want := pr[0] > pr[1]
+		if creates != want {
+			bad = append(bad, fmt.Sprintf("interval(now)=%d stored=%d: creates a file=%v, want %v", pr[0], pr[1], creates, want))
+		}
+	}
+	if cas != nil {
+		args := cas.Call.Args
+		if len(args) == 3 && (args[1] != oldV || args[2] != nowV) {
+			bad = append(bad, "the compare-and-swap does not move the marker from the value that was read to the current interval")
+		}
+	}
+	if len(bad) > 0 {
+		r.Fail(key, c.pos(fn.Pos()), "%s", strings.Join(bad, "; "))
+	} else {
+		r.OK(key, "a new file is created iff the current interval is strictly later than the stored one (3 orderings); CAS(read value → current interval)")
+	}
+}
+
+func fieldTypeOfArg0(call *ssa.Call) types.Type {
+	if len(call.Call.Args) == 0 {
+		return types.Typ[types.Invalid]
+	}
+	if fa, ok := call.Call.Args[0].(*ssa.FieldAddr); ok {
+		return fieldOfAddr(fa).Type()
+	}
+	return types.Typ[types.Invalid]
 }
 
 // isErrNilTest: guard is `err == nil` taken true or `err != nil` taken false.
